@@ -131,7 +131,9 @@ def build_impl(cfg="dbg"):
         others = [d for d in os.listdir(CACHE) if d.startswith(cfg + "-") and d != os.path.basename(bdir)]
         others.sort(key=lambda d: os.path.getmtime(os.path.join(CACHE, d)), reverse=True)
         for d in others[2:]:
-            shutil.rmtree(os.path.join(CACHE, d), ignore_errors=True)
+            # never a tree another check may still be working in: only what has not been entered for six hours
+            if time.time() - os.path.getmtime(os.path.join(CACHE, d)) > 6 * 3600:
+                shutil.rmtree(os.path.join(CACHE, d), ignore_errors=True)
         if os.path.exists(os.path.join(bdir, ".built")):
             os.utime(bdir, None)
             return bdir
